@@ -194,16 +194,27 @@ def mkPP (a2a root0 : Nat) (ds : List Nat) (so : Int) (q : Prime) : Option PP :=
         some { p, r := q.r, ainv, rp, deltas, root0 := (val % (p : Int)).toNat,
                divA := amod == 0 && p != 2 }
 
+/-- the factors of `A` among the selection, with their index in `Factors.factors` -/
+def afsOf (f : Factors) (a : Nat) : List (Nat × Prime) :=
+  (withIdx 0 f.factors).filter fun ip => ip.2.p != 0 && a % ip.2.p == 0
+
+/-- `a2a`: `A` (type 1) or `A << 1` (type 2) -/
+def a2aOf (n : Int) (a : Nat) : Nat := if isType2 n then 2 * a else a
+
+/-- `root0`: the sum of the `r0`, or 1 in the special case `A = 1`, type 2 -/
+def root0Of (n : Int) (empty : Bool) (prs : List (Nat × Nat)) : Nat :=
+  if empty && isType2 n then 1 else (prs.map (·.1)).sum
+
 /-- `prepare_a(f, a, fbase, start_offset)` -/
 def prepareA (f : Factors) (a : Nat) (fb : List Prime) (so : Int) : Option APrep :=
   if a ≥ 2 ^ 254 then none                            -- assert!(a.bits() < 255)
   else
-    let afs := (withIdx 0 f.factors).filter fun ip => ip.2.p != 0 && a % ip.2.p == 0
+    let afs := afsOf f a
     match rootPairs f a afs 0 afs with
     | none => none
     | some prs =>
-      let a2a := if isType2 f.n then 2 * a else a
-      let root0 := if afs.isEmpty && isType2 f.n then 1 else (prs.map (·.1)).sum
+      let a2a := a2aOf f.n a
+      let root0 := root0Of f.n afs.isEmpty prs
       if a = 0 then none                              -- `% a`
       else if ((root0 * root0 : Nat) - f.n) % (a : Int) ≠ 0 then none    -- debug_assert
       else
@@ -295,18 +306,23 @@ def finishRoot (s : Sieve) (type2 : Bool) (b : Nat) (c : Int) (first : Bool) (pp
       some (r, r)
   else some r12
 
-def finishRoots (s : Sieve) (type2 : Bool) (b : Nat) (c : Int) :
-    List PP → List (Nat × Nat) → List (Option (Nat × Nat))
-  | pp :: pps, r :: rs =>
-    finishRoot s type2 b c true pp r :: List.zipWith (finishRoot s type2 b c false) pps rs
-  | _, _ => []
+def finishRoots (s : Sieve) (type2 : Bool) (b : Nat) (c : Int) (pps : List PP)
+    (rs : List (Nat × Nat)) : List (Option (Nat × Nat)) :=
+  List.zipWith (fun (ip : Nat × PP) r => finishRoot s type2 b c (ip.1 == 0) ip.2 r) (withIdx 0 pps) rs
+
+/-- the modulus of `B² ≡ n`: `A` for type 1, `4A` for type 2 -/
+def polyM (type2 : Bool) (a : Nat) : Int := if type2 then 4 * (a : Int) else (a : Int)
+
+/-- the rounded root `(s.nsqrt / a.a).low_u64()` resp. `(s.nsqrt / (a.a << 1)).low_u64()` -/
+def polyRoot (nsqrt : Nat) (type2 : Bool) (a : Nat) : Nat :=
+  (if type2 then nsqrt / (2 * a) else nsqrt / a) % 2 ^ 64
 
 /-- `_finish_polynomial(s, a, pol)` -/
 def finish (s : Sieve) (pa : APrep) (pol : Poly) : Option Poly :=
   if pol.b ≤ 0 then none                              -- assert!(pol.b.is_positive())
   else
     let b := pol.b.toNat
-    let m : Int := if pol.type2 then 4 * (pa.a : Int) else (pa.a : Int)
+    let m : Int := polyM pol.type2 pa.a
     if pa.a = 0 then none
     else if (((b * b : Nat) : Int) - pol.n) % m ≠ 0 then none      -- debug_assert
     else
@@ -314,7 +330,7 @@ def finish (s : Sieve) (pa : APrep) (pol : Poly) : Option Poly :=
       match allSome (finishRoots s pol.type2 b c pa.pps pol.rs) with
       | none => none
       | some rs =>
-        let root := (if pol.type2 then s.nsqrt / (2 * pa.a) else s.nsqrt / pa.a) % 2 ^ 64
+        let root := polyRoot s.nsqrt pol.type2 pa.a
         if pa.factors.length ≥ 5 ∧ ¬ (root < s.intervalSize / 2) then none   -- assert
         else
           let mlog := bitlen s.intervalSize
@@ -323,17 +339,19 @@ def finish (s : Sieve) (pa : APrep) (pol : Poly) : Option Poly :=
           else if ¬ (bitlen pol.c.natAbs < 255) then none         -- the previous `c`
           else some { pol with c := wrap256 c, root := root % W32, rs }
 
+/-- `if s.fbase.p(0) == 2 && typ == PolyType::Type2 { r2p[0] = r1p[0] + 1 }` (case `A = 1`) -/
+def unitFix (typ : Bool) : List PP → List (Nat × Nat) → List (Nat × Nat)
+  | pp :: _, (r1, r2) :: rest => if pp.p == 2 && typ then (r1, r1 + 1) :: rest else (r1, r2) :: rest
+  | _, rs => rs
+
 /-- `Poly::first(s, a)` -/
 def first (s : Sieve) (pa : APrep) : Option Poly :=
   let typ := isType2 s.n
   if pa.factors.isEmpty then
     if ¬ (bitlen s.n.natAbs < 128) then none          -- assert!
     else
-      let rs := pa.pps.map firstRoots
       -- Handle p=2
-      let rs := match pa.pps, rs with
-        | pp :: _, (r1, r2) :: rest => if pp.p == 2 && typ then (r1, r1 + 1) :: rest else (r1, r2) :: rest
-        | _, rs => rs
+      let rs := unitFix typ pa.pps (pa.pps.map firstRoots)
       if ¬ typ then
         some { idx := 0, type2 := typ, a := 1, b := 0, c := -(wrap256 s.n), root := 0, rs, n := s.n }
       else
